@@ -111,6 +111,8 @@ def native_tags(args):
 def native_check(con: Contract, nat_args: dict):
     """run the real function on native arguments and evaluate the contract's clauses natively.
     -> (outcome, failed: list[str])   failed clause names, e.g. 'post.p2o', 'exc.AmpycloudError.only_if'"""
+    if con.native_oracle is not None:
+        return con.native_oracle(**nat_args)
     args_in = copy.deepcopy(nat_args)
     view = {k: nview(v) for k, v in nat_args.items()}
     tys = native_tags(nat_args)
@@ -161,40 +163,56 @@ def run_property(spec: PropertySpec, tier: str, seed: int, reg: Registry) -> Run
         lem = reg.lemmas[lname]
         for ob in lem.obligations():
             run.verdicts.append(smt.discharge(ob, run.timeout_ms))
-    # 2. functions in full mode
+    # 2. functions in full mode, one worker per (function, contract case); each worker explores, discharges and
+    #    cross-checks its case against CPython, and returns plain data
+    tasks = []
     for q in spec.functions:
-        try:
-            rep = ex.explore(q)
-            verify.discharge_all(rep, run.timeout_ms)
-        except Exception as e:  # engine crash: checker error, not a verdict
-            run.errors.append(f'engine crash on {q}: {type(e).__name__}: {e}\n{traceback.format_exc()[-1500:]}')
+        con = reg.get(q)
+        if con is None:
+            run.errors.append(f'no contract registered for {q}')
             continue
-        run.reports[q] = rep
-        run.verdicts.extend(rep.verdicts)
+        for k in range(len(con.cases)):
+            tasks.append((q, k, tier, seed, run.timeout_ms))
+    results = _pool_map(_case_worker, tasks)
+    for (q, k, *_), res in zip(tasks, results):
+        if 'crash' in res:
+            run.errors.append(f'engine crash on {q} case {k}: {res["crash"]}')
+            continue
+        rep = run.reports.get(q)
+        if rep is None:
+            rep = verify.FunctionReport(q, res['file'], res['sha256'], res['lines'])
+            run.reports[q] = rep
+        rep.verdicts.extend(res['verdicts'])
+        rep.paths += res['paths']
+        rep.undecided.extend(res['undecided'])
+        rep.dropped.add(res['dropped'])
+        rep.interpreted |= res['interpreted']
+        rep.seconds += res['seconds']
+        run.verdicts.extend(res['verdicts'])
+        run.used_lemmas = getattr(run, 'used_lemmas', set()) | res['used_lemmas']
+        cc = run.cross.setdefault(q, {'inputs': 0, 'agreements': 0, 'disagreements': [], 'skipped': None, 'paths_hit': 0})
+        for key in ('inputs', 'agreements', 'paths_hit'):
+            cc[key] += res['cross'].get(key, 0)
+        cc['disagreements'].extend(res['cross'].get('disagreements', []))
+        cc['skipped'] = cc['skipped'] or res['cross'].get('skipped')
+    for q, cc in run.cross.items():
+        rep = run.reports[q]
+        if cc['disagreements']:
+            if any(v.status == 'refuted' and v.expect == 'valid' for v in rep.verdicts):
+                # the code itself fails an obligation: native results legitimately contradict assumed invariants /
+                # callee contracts on the cut paths -- not an engine problem
+                cc['note'] = 'function has refuted obligations; disagreements are expected and not counted'
+            else:
+                run.errors.append(f'ENGINE-DISAGREEMENT on {q}: {cc["disagreements"][:3]}')
+    missing = getattr(run, 'used_lemmas', set()) - set(spec.lemmas)
+    if missing:
+        run.errors.append(f'lemma instances used as hypotheses but the lemmas are not proved in this check: {sorted(missing)}')
     # 3. extras (frame back end, property-level obligations built from the reports)
     for extra in spec.extras:
         try:
             run.verdicts.extend(extra(run))
         except Exception as e:
             run.errors.append(f'extra {getattr(extra, "__name__", extra)} crashed: {type(e).__name__}: {e}\n{traceback.format_exc()[-1500:]}')
-    # 4. engine cross-check against CPython
-    n = 200 if tier == 'quick' else 3000
-    for q, rep in run.reports.items():
-        con = reg.get(q)
-        try:
-            cc = crosscheck.crosscheck_function(rep, con, n, seed)
-        except Exception as e:
-            run.errors.append(f'cross-check crashed on {q}: {type(e).__name__}: {e}\n{traceback.format_exc()[-1200:]}')
-            continue
-        run.cross[q] = cc
-        if cc['disagreements']:
-            if any(v.status == 'refuted' and v.expect == 'valid' for v in rep.verdicts):
-                # the code itself fails an obligation: native results legitimately contradict assumed invariants /
-                # callee contracts on the cut paths -- not an engine problem
-                run.notes.append(f'cross-check of {q} skipped as evidence: function has refuted obligations')
-                cc['note'] = 'function has refuted obligations; disagreements are expected and not counted'
-            else:
-                run.errors.append(f'ENGINE-DISAGREEMENT on {q}: {cc["disagreements"][:3]}')
     # 5. bounded stand-in (label B)
     if spec.bounded is not None:
         try:
@@ -202,6 +220,44 @@ def run_property(spec: PropertySpec, tier: str, seed: int, reg: Registry) -> Run
         except Exception as e:
             run.errors.append(f'bounded run crashed: {type(e).__name__}: {e}\n{traceback.format_exc()[-1500:]}')
     return run
+
+
+def _pool_map(fn, tasks):
+    import multiprocessing as mp
+    if not tasks:
+        return []
+    nproc = min(int(os.environ.get('PYVC_JOBS', '16')), len(tasks))
+    if nproc <= 1:
+        return [fn(t) for t in tasks]
+    ctx = mp.get_context('fork')
+    with ctx.Pool(nproc) as pool:
+        return pool.map(fn, tasks, chunksize=1)
+
+
+def _case_worker(task):
+    q, k, tier, seed, timeout_ms = task
+    try:
+        from contracts import build_registry
+        reg = build_registry()
+        con = reg.get(q)
+        con.cases = [con.cases[k]]
+        ex = verify.Explorer(reg, LIB)
+        rep = ex.explore(q)
+        verify.discharge_all(rep, timeout_ms)
+        n = (200 if tier == 'quick' else 3000) // max(1, len(reg.get(q).cases))
+        try:
+            cc = crosscheck.crosscheck_function(rep, con, max(20, n // 1), seed + k)
+        except Exception as e:
+            cc = {'disagreements': [], 'skipped': f'cross-check crashed: {type(e).__name__}: {e}'}
+        used = set()
+        for s_ in rep.summaries:
+            if s_.ctx is not None:
+                used |= s_.ctx.used_lemmas
+        return {'file': rep.file, 'sha256': rep.sha256, 'lines': rep.lines, 'verdicts': rep.verdicts, 'paths': rep.paths,
+                'undecided': rep.undecided, 'dropped': rep.dropped, 'interpreted': rep.interpreted, 'seconds': rep.seconds,
+                'cross': cc, 'used_lemmas': used}
+    except Exception as e:
+        return {'crash': f'{type(e).__name__}: {e}\n{traceback.format_exc()[-1500:]}'}
 
 
 def aggregate(verdicts):
@@ -262,7 +318,7 @@ def replay_refutation(run: Run, name: str, vs: list):
     fn = name.split('::')[0]
     con = run.reg.get(fn)
     info = {'reproduced': False, 'how': 'none', 'solver_models': [_jsonable(v.model) for v in vs if v.status == 'refuted' and v.model][:3]}
-    if con is None or con.native_call is None:
+    if con is None or (con.native_call is None and con.native_oracle is None):
         info['how'] = 'no native adapter for this obligation'
         return info
     # (a) the solver's counter-model
